@@ -10,7 +10,7 @@
 
 package manifest
 
-//@ func firstBlock property C10 arith checked
+//@ func firstBlock property C10,C17 arith checked
 //@   requires len(offsets) >= 2
 //@   requires forall i, j int :: 0 <= i && i <= j && j < len(offsets) ==> offsets[i] <= offsets[j]
 //@   ensures  result == -1 || (0 <= result && result < len(offsets)-1 && offsets[result] <= rangeStart && rangeStart < offsets[result+1])
@@ -46,10 +46,10 @@ package manifest
 //@   modifies fresh(mem:string)
 //@   ensures err == nil ==> b.Size >= 0
 
-//@ func parseFileStreamSegment property C10
+//@ func parseFileStreamSegment property C10,C17
 //@   modifies fresh(mem:string)
 
-//@ func parseManifestStream property C10 arith checked
+//@ func parseManifestStream property C10,C17 arith checked
 //@   replay check m.Err != nil || (forall k int :: 0 <= k && k < len(m.FileStreamSegments) ==> m.FileStreamSegments[k].SegPos <= m.blockOffsets[len(m.Blocks)] && m.FileStreamSegments[k].SegLen <= m.blockOffsets[len(m.Blocks)] - m.FileStreamSegments[k].SegPos)
 //@   replay check m.Err != nil || (forall k int :: 0 <= k && k < len(m.Blocks) ==> m.blockOffsets[k] <= m.blockOffsets[k+1])
 //@   replay hint ". 5d41402abc4b2a76b9719d911017c592+5 0:5:x", ". 5d41402abc4b2a76b9719d911017c592+5 18446744073709551615:2:x", ". 5d41402abc4b2a76b9719d911017c592+9223372036854775807 5d41402abc4b2a76b9719d911017c592+9223372036854775807 5d41402abc4b2a76b9719d911017c592+5 0:3:y", ". 5d41402abc4b2a76b9719d911017c592+5 d41d8cd98f00b204e9800998ecf8427e+0 7d793037a0760186574b0282f2f435e7+5 5:5:foo"
@@ -73,7 +73,7 @@ package manifest
 // token (wantPos, wantLen) is the intersection of the token's byte range with
 // one block: it starts at max(wantPos, blockPos) and ends at
 // min(wantPos+wantLen, blockEnd), relative to the block.
-//@ func ManifestStream.sendFileSegmentIterByName property C10 arith checked
+//@ func ManifestStream.sendFileSegmentIterByName property C10,C17 arith checked
 //@   requires streamValid(s)
 //@   ghost i0 int = 0
 //@   at assign i#1: set i0 = i
